@@ -87,7 +87,7 @@ func init() {
 	})
 	register("sys.cpurom", func(a []string) { sysConstruct(testROM(), optBool(a, 1, true), optBool(a, 2, false)) })
 	register("sys.rom", func(a []string) {
-		b, err := ioutil.ReadFile(a[1])
+		b, err := ioutil.ReadFile(strings.ReplaceAll(a[1], "%20", " "))
 		if err != nil {
 			panic(err)
 		}
